@@ -110,30 +110,28 @@ def run(chk):
             results[i] = x
 
     # ---------------------------------------------------------------- Coq side
-    defs, exprs, index = [], [], []
+    per_case = []
     for ci, (case, res) in enumerate(zip(cases, results)):
         d = res.get("dump")
         if d is None:
             continue
         texts = list(case["inputs"]) + K.literal_texts(d) + [v["input"] for r_ in res["runs"] for v in r_.get("variants", [])]
         _, _, lo = K.class_extras(texts)
-        defs.append("Definition g%d : grammar := %s.\nDefinition c%d : config := %s.\nDefinition lo%d : N -> N := lower_of %s." % (
-            ci, pegdump.coq_grammar(d), ci, pegdump.coq_config(d), ci, K.coq_pairs(lo)))
+        lets = [("g", pegdump.coq_grammar(d)), ("c", pegdump.coq_config(d)), ("lo", "lower_of %s" % K.coq_pairs(lo))]
+        parts, keys = [], []
         for ii, (text, run_) in enumerate(zip(case["inputs"], res["runs"])):
             if run_.get("timeout") or run_.get("unsupported"):
                 continue
-            exprs.append("show_outcome g%d (run g%d c%d (orc_of %s) false %d %s)" % (
-                ci, ci, ci, pegdump.coq_table(run_["table"]), K.FUEL, pegdump.coq_str(text)))
-            index.append((ci, ii, -1))
+            parts.append("show_outcome g (run g c (orc_of %s) false %d %s)" % (pegdump.coq_table(run_["table"]), K.FUEL, pegdump.coq_str(text)))
+            keys.append((ci, ii, -1))
             for vi, v in enumerate(run_.get("variants", [])):
-                exprs.append("(show_bool (c20_hyp_b lo%d g%d c%d (orc_of %s) (orc_of %s) %s %s) ++ \"|\" ++ "
-                             "show_outcome g%d (run g%d c%d (orc_of %s) false %d %s))%%string" % (
-                                 ci, ci, ci, pegdump.coq_table(run_["table"]), pegdump.coq_table(v["table"]),
-                                 pegdump.coq_str(text), pegdump.coq_str(v["input"]),
-                                 ci, ci, ci, pegdump.coq_table(v["table"]), K.FUEL, pegdump.coq_str(v["input"])))
-                index.append((ci, ii, vi))
-    vals, errs = core.coq_eval("C20", K.IMPORTS, exprs, defs="\n".join(defs), shard=120)
-    mvals = dict(zip(index, vals))
+                parts.append("show_bool (c20_hyp_b lo g c %s %s %s %s) ++ \"|\" ++ show_outcome g (run g c (orc_of %s) false %d %s)" % (
+                    pegdump.coq_table(run_["table"]), pegdump.coq_table(v["table"]), pegdump.coq_str(text), pegdump.coq_str(v["input"]),
+                    pegdump.coq_table(v["table"]), K.FUEL, pegdump.coq_str(v["input"])))
+                keys.append((ci, ii, vi))
+        if parts:
+            per_case.append((lets, parts, keys))
+    mvals, errs = K.eval_cases("C20", per_case)
     disagreements, failures = [], []
     if errs:
         disagreements.append({"case": "coq evaluation", "model": errs[:2]})
